@@ -20,11 +20,15 @@ package sync
 // pile are now held. Whatever the return value, the same set of locks is held
 // afterwards (the return value only says whether pile locks were dropped
 // temporarily). Stated for up to three locks per call (the code base passes
-// one or two).
+// one or two). Lock may block and may drop the pile's locks temporarily: all
+// shared state of the LockPile's client (the virtual file system package) is
+// havocked across the call, which is how interference by other threads is
+// modelled.
 //@ func (*LockPile).Lock
 //@   props C14
 //@   trusted -- abstract contract of LockPile; lock_pile.go is not verified against it
 //@   modifies held, pile[lp]
+//@   havoc F:pkg/filesystem/virtual.* M:* E:* MD:* MV:* MC
 //@   ensures len(newLocks) <= 3 ==> (forall l TryLocker :: pile[lp][l] == old(pile[lp][l]) + occurrences(newLocks, l))
 //@   ensures forall l TryLocker :: held(l) == old(held(l)) + b2i(old(pile[lp][l]) == 0 && pile[lp][l] > 0)
 
